@@ -235,6 +235,141 @@ class IfGen:
         return V("%s %s %s" % (self.r.choice(("1", "7", "-3")), self.r.choice("/%"), z), 0, z == "0u", 13, (),
                  [("unevaluated-div0", "s")])
 
+    def count_literal(self, cnt):
+        """A shift count; its own signedness must not influence the type of the shift."""
+        suf = self.r.choice(("", "", "u", "U", "ul", "l", "ULL"))
+        return V("%d%s" % (cnt, suf), cnt, "u" in suf.lower(), 16)
+
+    # -- typed probes: make the intmax_t/uintmax_t type of every operator's result observable ----
+    def typed_operand(self, uns, big=None):
+        """A small or sign-bit-set operand of the requested signedness."""
+        r = self.r
+        big = r.random() < 0.5 if big is None else big
+        if not big:
+            k = r.choice((1, 2, 3, 5, 7, 8, 16, 100))
+            return V("%d%s" % (k, r.choice(("u", "U", "ul")) if uns else r.choice(("", "", "l", "LL"))), k, uns, 16)
+        k = r.choice((1, 2, 3, 7, 8, 16, 100, 255, 4096, 1 << 40))
+        if uns:
+            c = r.random()
+            if c < 0.4:
+                v = M64 + 1 - k
+                return V(r.choice(("%du", "0x%xu", "0x%xUL")) % v, v, True, 16)
+            if c < 0.7:
+                return self.unary("-", V("%du" % k, k, True, 16))
+            return self.unary("~", V("%du" % (k - 1), k - 1, True, 16))
+        c = r.random()
+        if c < 0.6:
+            return self.unary("-", V("%d%s" % (k, r.choice(("", "l", "LL"))), k, False, 16))
+        if c < 0.8:
+            return self.unary("~", V(str(k - 1), k - 1, False, 16))
+        return self.binary("-", V("0", 0, False, 16), V(str(k), k, False, 16))
+
+    @staticmethod
+    def topbit(v):
+        return v.val is not None and (v.val < 0 or v.val > IMAX)
+
+    def probe_subject(self):
+        """X = op(operands of mixed signedness) with the sign bit set, plus its description."""
+        r = self.r
+        kind = r.choice(("<<", ">>", ">>", "+", "-", "*", "/", "%", "&", "|", "^", "neg", "not", "plus", "?:",
+                         "cmp", "logic", "lnot", "shift-chain"))
+        for _ in range(30):
+            sa, sb = r.random() < 0.5, r.random() < 0.5
+            x = None
+            if kind in ("<<", ">>"):
+                a = self.typed_operand(sa, big=(kind == ">>") or (sa and self.r.random() < 0.6))
+                if a is None:
+                    continue
+                cnt = r.choice((0, 1, 2, 3, 7, 31, 32, 62, 63)) if kind == ">>" else r.choice((0, 1, 2, 3, 8, 31, 61, 62, 63))
+                b = V("%d%s" % (cnt, r.choice(("u", "U", "ul")) if sb else r.choice(("", "l"))), cnt, sb, 16)
+                x = self.binary(kind, a, b)
+            elif kind == "shift-chain":
+                a = self.typed_operand(sa, big=True)
+                c1 = V("%d%s" % (r.choice((0, 1, 2)), "u" if sb else ""), 0, sb, 16)
+                c1.val = int(c1.text.rstrip("u"))
+                x = a and self.binary(">>", a, c1)
+                x = x and self.binary(">>", x, self.count_literal(r.choice((0, 1, 3))))
+            elif kind in ("+", "-", "*", "/", "%", "&", "|", "^"):
+                a, b = self.typed_operand(sa), self.typed_operand(sb)
+                x = a and b and self.binary(kind, a, b)
+            elif kind in ("neg", "not", "plus"):
+                a = self.typed_operand(sa)
+                x = a and self.unary({"neg": "-", "not": "~", "plus": "+"}[kind], a)
+            elif kind == "?:":
+                a, b = self.typed_operand(sa), self.typed_operand(sb)
+                c = self.typed_operand(r.random() < 0.5, big=False)
+                if r.random() < 0.5:
+                    c = V("0", 0, False, 16)
+                x = a and b and self.ternary(c, a, b)
+            else:
+                # results of comparisons, && || and ! are signed whatever the operands: negate to see it
+                a, b = self.typed_operand(sa), self.typed_operand(sb)
+                if a is None or b is None:
+                    continue
+                if kind == "cmp":
+                    y = self.binary(r.choice(("<", "<=", ">", ">=", "==", "!=")), a, b)
+                elif kind == "logic":
+                    y = self.binary(r.choice(("&&", "||")), a, b)
+                else:
+                    y = self.unary("!", a)
+                x = y and y.val == 1 and self.unary("-", y)
+            what = "%s:%s%s" % (kind, "u" if sa else "s", "u" if sb else "s")
+            if x and self.topbit(x):
+                return x, what
+            if x and 0 <= x.val < (1 << 62):
+                # a non-negative result shows its type after subtracting something larger:
+                # signed -> -1, unsigned -> wraps to UINTMAX_MAX
+                y = self.binary("-", x, V(str(x.val + 1), x.val + 1, False, 16))
+                if y and self.topbit(y):
+                    return y, what
+        return None, None
+
+    def typed_probe(self):
+        """consumer(X): an expression whose truth value depends on the *type* of X, not only its bits."""
+        r = self.r
+        x, what = self.probe_subject()
+        if x is None:
+            return None, None
+        zero = V("0", 0, False, 16)
+        cons = r.choice(("<0", ">=0", "0>", "/", "%", ">>", "?:s", "?:u", "/neg", "<-1"))
+        e = None
+        if cons == "<0":
+            e = self.binary("<", x, zero)
+        elif cons == ">=0":
+            e = self.binary(">=", x, zero)
+        elif cons == "0>":
+            e = self.binary(">", zero, x)
+        elif cons == "<-1":
+            e = self.binary("<=", x, self.unary("-", V("1", 1, False, 16)))
+            cons = "<=-1"
+            # X <= -1: signed negative X -> true; unsigned X -> compared with UINTMAX_MAX -> true as well:
+            # only sensitive through the conversion of -1, kept as a control
+        elif cons in ("/", "%", ">>", "/neg"):
+            k = r.choice((2, 3, 5, 7)) if cons != ">>" else r.choice((1, 2, 5, 33))
+            kk = V(str(k), k, False, 16)
+            if cons == "/neg":
+                kk = self.unary("-", kk)
+            y = kk and self.binary({"/neg": "/"}.get(cons, cons), x, kk)
+            if y is not None:
+                # compare with the value C gives, spelled with the type C gives
+                if y.uns:
+                    lit = V("%du" % y.val, y.val, True, 16)
+                elif y.val < 0:
+                    lit = self.unary("-", V(str(-y.val), -y.val, False, 16)) if -y.val <= IMAX else None
+                else:
+                    lit = V(str(y.val), y.val, False, 16)
+                e = lit and self.binary("==", y, lit)
+        else:
+            other = V("0u", 0, True, 16) if cons == "?:u" else zero
+            cnd = V(r.choice(("1", "7", "1u")), 1, False, 16)
+            y = self.ternary(cnd, x, other) if r.random() < 0.5 else self.ternary(zero, other, x)
+            e = y and self.binary("<", y, zero)
+        if e is None:
+            return None, None
+        if r.random() < 0.3:
+            e = self.unary("!", e) or e
+        return e, "%s %s" % (what, cons)
+
     def tree(self, depth):
         r = self.r
         if depth <= 0 or r.random() < 0.15:
@@ -252,7 +387,7 @@ class IfGen:
                         if a.val < 0:
                             continue
                         cnt = min(cnt, max(0, 62 - a.val.bit_length()))
-                    b = V(str(cnt), cnt, False, 16)
+                    b = self.count_literal(cnt)
                     if cnt >= 2 and r.random() < 0.35:
                         # a << 1 + 2: the count is an additive expression (binds tighter than the shift)
                         k = r.randrange(1, cnt)
@@ -294,6 +429,7 @@ class Section:
         self.tags = frozenset(tags)
         self.feats = frozenset(feats)
         self.nontrivial = nontrivial
+        self.probes = []            # typed probes used: "<operator>:<signedness of operands> <consumer>"
 
 
 def if_section(r, n, avoid):
@@ -312,9 +448,18 @@ def if_section(r, n, avoid):
             nums.append((name, v))
     g.nummacros = nums
     tags, feats = set(), set()
+    probes = []
     arms = r.randrange(1, 4)
     for k in range(arms):
-        e = g.tree(r.choice((1, 2, 2, 3, 3, 4)))
+        e, what = g.typed_probe() if r.random() < 0.55 else (None, None)
+        if e is None:
+            e = g.tree(r.choice((1, 2, 2, 3, 3, 4)))
+        else:
+            probes.append(what)
+            if r.random() < 0.3:
+                # bury the probe in a larger expression, keeping its truth value decisive
+                t = g.tree(2)
+                e = (g.binary("&&", e, t) if t.val else g.binary("||", e, t)) or e
         tags |= e.tags
         feats |= {"if:%s:%s" % o for o in e.ops}
         lines.append("%s %s" % ("#if" if k == 0 else "#elif", e.text))
@@ -340,7 +485,9 @@ def if_section(r, n, avoid):
         feats.add("ifndef")
     for d in defined + [nm for nm, _ in nums]:
         lines.append("#undef %s" % d)
-    return Section("if", "\n".join(lines) + "\n", tags, feats)
+    sec = Section("if", "\n".join(lines) + "\n", tags, feats)
+    sec.probes = probes
+    return sec
 
 
 K_STR_SPACE = "stringify-puts-space-between-all-tokens"
